@@ -105,7 +105,7 @@ PROPS["C09"] = {
 PROPS["C10"] = {
     "level": "exploration",
     "technique": "metamorphic property-based testing (rapidcheck): encoder with generated history vs fresh encoder on the same final batch",
-    "rule": "cases = (history of 0..4 (thorough ..6) encode calls incl. empty batches, zero-length-payload packets and calls ended part-way by the caller's iterator throwing; one case in twelve starts with 65515..65536 frames so that the final batch straddles the counter wrap; final batch + context), final batch biased to "
+    "rule": "cases = (history of 0..4 (thorough ..6) encode calls incl. empty batches, zero-length-payload packets and calls ended part-way by the caller's iterator throwing; one case in twelve starts with 65515..65536 frames so that the final batch straddles the counter wrap; half of the cases encode every call from one pool of Packet objects refilled in place; final batch + context), final batch biased to "
             "continue the history's last message type and to need segmentation; non-trivial when the history is non-empty and the "
             "final batch segments or mixes message types; distinct = distinct serialized cases",
     "assumptions": COMMON_ASSUMPTIONS + ["differential oracle: the library on a fresh object is the reference, as the property states"],
@@ -227,7 +227,7 @@ PROPS["C03"] = {
     "level": "exploration",
     "technique": "bounded exhaustive enumeration + property-based testing (rapidcheck) + coverage-guided fuzzing (libFuzzer) of validators and accessors under ASan with an in-bounds view predicate",
     "rule": "cases = (typed payload class, buffer size, background zero / ones / pseudo-random / pseudo-random without any zero byte, inner length field values (capture-module: also all prefixes behind string k >= 0x0101 with an exact-size buffer), path: class validator+constructor / "
-            "message buffer -> Packet constructor / frame -> Decoder / TECMP message -> Decoder::decode -> converted packet (CAN, CAN-FD, LIN data of every length 0..255)); exhaustive over every size 0..header+8 and every inner length "
+            "message buffer -> Packet constructor / frame -> Decoder / two segments -> Decoder reassembly / TECMP message -> Decoder::decode -> converted packet (CAN, CAN-FD, LIN data of every length 0..255)); exhaustive over every size 0..header+8 and every inner length "
             "value 0..rest+2 plus boundary values, random beyond; non-trivial when the buffer is accepted by validation AND has an inner "
             "length > 0 or a size within 8 bytes of the header size; distinct = distinct serialized cases",
     "assumptions": COMMON_ASSUMPTIONS + ["one-directional on purpose: rejection by a validator is always acceptable here (C04/C13 cover what must be accepted)",
